@@ -599,6 +599,10 @@ def _hub_unary_plus(P, i, p):
 
 def _hub_attr_expr(P, i, p):
   # attribute / call broadcasting on a 2-use hub: |x|^2 = re^2 + im^2
+  if p["how"] == "hubcall":
+    # a hub whose items are callables, called element-wise - twice
+    f = P.ls.thub(S(P, i[0]).map(lambda v: v.conjugate), 2)
+    return f() + f()
   x = P.ls.thub(S(P, i[0]), 3 if p["how"] == "attr" else 2)
   if p["how"] == "attr":
     return x.real * x.real + x.imag
@@ -609,7 +613,8 @@ def _hub_attr_expr(P, i, p):
 
 stage("thub_expr")((_thub_expr, lambda i, p: M.m_each(i)))
 stage("hub_attr_expr", params=lambda W: {"how": W.pick("how", ["attr", "call",
-                                                               "both"])})(
+                                                               "both",
+                                                               "hubcall"])})(
   (_hub_attr_expr, lambda i, p: M.m_each(i)))
 stage("hub_unary_plus", params=lambda W: {"op": W.pick("unop", ANY_UNOPS)})(
   (_hub_unary_plus, lambda i, p: M.m_each(i)))
